@@ -94,6 +94,14 @@ def programs(tier):
     # cycling without an anti-cycling rule (Beale)
     p("Beale", [("x1", NN()), ("x2", NN()), ("x3", NN()), ("x4", NN())],
       [("r1", [0.25, -60.0, -0.04, 9.0], "LessOrEqual", 0.0), ("r2", [0.5, -90.0, -0.02, 3.0], "LessOrEqual", 0.0), ("r3", [0.0, 0.0, 1.0, 0.0], "LessOrEqual", 1.0)], [-0.75, 150.0, -0.02, 6.0], "Min")
+    # direct start or two phases: as many columns of their own as there are rows, but not one per row (a row with two own
+    # columns next to an = / >= row with none)
+    p("own columns crowd one row, equality has none", [("x", NN()), ("y", NN())], [("a", [1.0, 1.0], "LessOrEqual", 4.0), ("e", [0.0, 1.0], "Equal", 1.5)], [1.0, 0.0], "Max")
+    p("own columns crowd one row, equality has none, infeasible", [("x", NN()), ("y", NN())], [("a", [1.0, 1.0], "LessOrEqual", 4.0), ("e", [0.0, 1.0], "Equal", 6.0)], [1.0, 0.0], "Max")
+    p("own columns crowd one row, >= row has none", [("x", NN()), ("y", NN())], [("a", [1.0, 1.0], "LessOrEqual", 4.0), ("g", [0.0, 1.0], "GreaterOrEqual", 1.0)], [1.0, 0.0], "Max")
+    p("own columns crowd two rows, = and >= rows have none", [("x", NN()), ("y", NN()), ("u", NN()), ("v", NN())],
+      [("a", [1.0, 1.0, 0.0, 0.0], "LessOrEqual", 10.0), ("b", [0.0, 0.0, 1.0, 1.0], "LessOrEqual", 8.0), ("e", [0.0, 1.0, 0.0, 1.0], "Equal", 5.0), ("g", [0.0, 1.0, 0.0, -1.0], "GreaterOrEqual", 1.0)], [-1.0, 0.0, -1.0, 0.0], "Min")
+    p("negative right-hand side <= row has no own column", [("x", NN()), ("y", NN())], [("a", [1.0, 1.0], "LessOrEqual", 6.0), ("n", [0.0, -1.0], "LessOrEqual", -2.0)], [1.0, 0.0], "Max")
     if tier == "thorough":
         # a sweep of small programs: every sign pattern of a 2 x 2 system with a box
         k = 0
